@@ -25,6 +25,13 @@ def _c(cid, shape, kw, level='B', opts=None):
     return (cid, kw, level, opts or {})
 
 
+# maximum holding time is elapsed time, not a number of steps: grids with steps of 23 h / 24 h / 25 h and calendar months
+MSD_IRREGULAR = [
+    _c('max_duration_dst_47h_from_24h_day', 'contract_storage', dict(T=4, eff=None, unit='h', freq=('d', '2021-03-27', '2021-03-31', 'CET'), storage_kw=dict(max_store_duration=47, costs=False)), 'A', dict(msd=47)),
+    _c('max_duration_dst_47h_from_23h_day', 'contract_storage', dict(T=4, eff=None, unit='h', freq=('d', '2021-03-28', '2021-04-01', 'CET'), storage_kw=dict(max_store_duration=47, costs=False)), 'A', dict(msd=47)),
+    _c('max_duration_months_59d', 'contract_storage', dict(T=4, eff=None, unit='d', freq=('MS', '2021-01-01', '2021-05-01', None), storage_kw=dict(max_store_duration=59, costs=False)), 'A', dict(msd=59)),
+    _c('max_duration_autumn_49h', 'contract_storage', dict(T=4, unit='h', freq=('d', '2021-10-30', '2021-11-03', 'CET'), storage_kw=dict(max_store_duration=49)), 'A', dict(msd=49)),
+]
 QUICK = [
     _c('basic_eff', 'contract_storage', dict(T=3)),
     _c('basic_onevar', 'contract_storage', dict(T=3, eff=None, storage_kw=dict(costs=False))),
@@ -37,7 +44,7 @@ QUICK = [
     _c('no_simult', 'contract_storage', dict(T=2, storage_kw=dict(no_simult_in_out=True)), 'A'),
     _c('max_duration', 'contract_storage', dict(T=4, eff=None, storage_kw=dict(max_store_duration=2, costs=False)), 'A', dict(msd=2)),
     _c('blocks', 'contract_storage', dict(T=4, eff=None, storage_kw=dict(block_size='2h', costs=False)), 'A', dict(blocks='2h')),
-]
+] + [MSD_IRREGULAR[0]]
 THOROUGH = QUICK + [
     _c('basic_T5', 'contract_storage', dict(T=5)),
     _c('window_inside_eff', 'contract_storage', dict(T=5, win_s=(1, 4), wacc=True)),
@@ -51,7 +58,7 @@ THOROUGH = QUICK + [
     _c('blocks_T6_3h', 'contract_storage', dict(T=6, eff=None, storage_kw=dict(block_size='3h', costs=False)), 'A', dict(blocks='3h')),
     _c('blocks_unaligned_T5', 'contract_storage', dict(T=5, eff=None, storage_kw=dict(block_size='2h', costs=False)), 'A', dict(blocks='2h')),
     _c('coarse_storage', 'coarse', dict(T=4, kind='storage', eff=0.75, ec=True), 'A', dict(name='co', coarse=True)),
-]
+] + MSD_IRREGULAR[1:]
 BOUNDS = dict(quick='shapes %s; T<=4' % [c[0] for c in QUICK], thorough='shapes %s; T<=6' % [c[0] for c in THOROUGH])
 OUTSIDE = ['periodic storages', 'combinations of MIP options with blocks', 'per-minor-step level of a coarse-frequency storage (checked at coarse interval ends only)']
 ASSUMPTIONS = ['reported discharge carries a negative sign (EAO convention min(0,-x)); accepted',
@@ -130,6 +137,7 @@ def run_case(case_id, tier, seed, shape, kw, level, opts):
     rec.paths = len(res)
     validated = False
     kf_msd = known.is_open('KF-C05-msd')
+    allows = {}       # (first, last step of a window within the holding limit) -> (verdict, candidate) over all paths
     for pi, (path, D) in enumerate(res):
         if path.exc is not None:
             if common.is_rejection(path.exc):
@@ -229,8 +237,49 @@ def run_case(case_id, tier, seed, shape, kw, level, opts):
                           info=dict(info0, kind='msd', win=win))
                 rec.prove(P + '/max_duration/%d-%d[start>0 or inflow]' % (win[0], win[-1]), assume + [trig2], goal, form='Q1',
                           info=dict(info0, kind='msd', win=win), known='KF-C05-msd' if kf_msd else None)
+            # completeness: holding over any run of steps whose duration does NOT exceed the limit is possible (for some parameters with
+            # empty start and no inflow): the rows must not forbid more than the limit says -- elapsed time, not a number of steps
+            for i0, t0 in enumerate(active):
+                acc, win = 0.0, []
+                for t in active[i0:]:
+                    if acc + dts[t] > lim + 1e-12:
+                        break
+                    acc += dts[t]
+                    win.append(t)
+                if not win or (len(win) == len(active[i0:]) and i0 > 0):
+                    continue
+                key = (win[0], win[-1])
+                if allows.get(key, ('', None))[0] == 'sat':
+                    continue            # a witness was found on another path (paths differ in what the market can deliver / absorb)
+                sol = z3.Solver()
+                sol.set('timeout', 60000)
+                sol.add(*(assume + [z3.Not(trig2)] + [level_t[t] > 0 for t in win]))
+                import time as _time
+                t_ = _time.time()
+                r = str(sol.check())
+                rec.solver_s += _time.time() - t_
+                if r == 'sat':
+                    allows[key] = (r, None)
+                    continue
+                # replay point: parameters under which holding is physically possible (capacities, size, market limits non-zero)
+                roomy = [z3.Real(n_) > 0 for n_ in D.names if n_.endswith(('_max', '_size', '_capin', '_capout'))] + \
+                        [z3.Real(n_) < 0 for n_ in D.names if n_.endswith('_min')]
+                env = common.generic_point(list(D.pre) + path.pc + [z3.Not(trig2)] + roomy, D.names, seed)
+                strong = env is not None
+                if key not in allows or (r == 'unknown' and allows[key][0] == 'unsat') or (strong and not allows[key][1].get('strong')):
+                    if env is None:
+                        env = common.generic_point(list(D.pre) + path.pc + [z3.Not(trig2)], D.names, seed) or {}
+                    allows[key] = (r if key not in allows or allows[key][0] != 'unknown' else 'unknown',
+                                   dict(env=env, info=dict(info0, kind='msd_allows', win=win), strong=strong))
         if not validated:
             validated = scen.validation_request(rec, sc, D, path, seed)
+    for key, (r, cand) in sorted(allows.items()):
+        nm = 'all_paths/max_duration_allows/%d-%d' % key
+        rec.distinct.add(nm)
+        rec.obligations.append(dict(name=nm, verdict={'sat': 'unsat', 'unsat': 'sat'}.get(r, 'unknown'), secs=0.0, form='Q4',
+                                    note='witness exists' if r == 'sat' else 'no parameter values on any set-up path admit holding over the window'))
+        if r == 'unsat':
+            rec.candidates.append(dict(name=nm, form='Q4', env=cand['env'], info=cand['info']))
     return rec.result()
 
 
@@ -260,6 +309,34 @@ def judge(case, kwargs, cand, ans):
     if info.get('kind') == 'window_steps':
         mapped = sorted({m['time_step'] for m in p['mapping'] if m['asset'] == info['asset'] and m['type'] == 'd'})
         return mapped != info['active'], 'the storage has dispatch variables at steps %s, its window covers %s' % (mapped, info['active'])
+    if info.get('kind') == 'msd_allows':
+        # decided exactly on the numbers of the problem the unshimmed code built: is there a feasible point holding over the window?
+        xs, cons = scen.z3_feasible_region(p)
+        s = o['storage']; dt = o['dt']; T = len(dt)
+        chz = [z3.RealVal(0)] * T; disz = [z3.RealVal(0)] * T; act = set()
+        for m in p['mapping']:
+            if m['asset'] == info['asset'] and m['type'] == 'd':
+                t = m['time_step']; act.add(t)
+                f = m.get('disp_factor'); f = 1.0 if f is None else f
+                v = xs[m['index']] * z3.RealVal(str(f))
+                if m['var_name'] == 'disp_in':
+                    chz[t] = chz[t] - v
+                elif m['var_name'] == 'disp_out':
+                    disz[t] = disz[t] + v
+                else:
+                    chz[t] = chz[t] + z3.If(v < 0, -v, 0); disz[t] = disz[t] + z3.If(v > 0, v, 0)
+        cur = z3.RealVal(str(s['start'])); lev = []
+        for t in range(T):
+            if t in act:
+                cur = cur + z3.RealVal(str(s['eff'])) * chz[t] - disz[t] + z3.RealVal(str(s['inflow'] * dt[t]))
+            lev.append(cur)
+        sol = z3.Solver(); sol.set('timeout', 120000)
+        sol.add(*cons); sol.add(*[lev[t] > 0 for t in info['win']])
+        r = str(sol.check())
+        dur = sum(dt[t] for t in info['win'])
+        if r == 'unsat':
+            return True, 'no feasible point of the real problem keeps the level above zero over steps %s (duration %.6g, within the limit)' % (info['win'], dur)
+        return (False, 'a feasible point holding over the window exists') if r == 'sat' else (None, 'solver: ' + r)
     r = scen.feasibility_residual(p, x)
     if r > 1e-6:
         return False, 'counterexample x infeasible for the unshimmed problem (residual %.3g)' % r
